@@ -1,6 +1,7 @@
 package harness
 
 import (
+	"context"
 	"fmt"
 	"net"
 	"sync"
@@ -459,6 +460,40 @@ func TestC12(t *testing.T) {
 			})
 		}
 	})
+	// a handshake that waits for a peer that never shows up, abandoned by cancelling its context at
+	// several instants: the handshake returns and nothing - in particular not its reader
+	// goroutine, which sees the cancellation as a transport error - stays behind
+	for _, side := range []string{"server", "client"} {
+		for _, at := range []time.Duration{0, 10 * time.Millisecond, 700 * time.Millisecond, 1200 * time.Millisecond, 5 * time.Second} {
+			side, at := side, at
+			leaked, panicked := inBubble(t, func() {
+				sim := NewSim(t, nil, time.Millisecond)
+				ctx, cancel := context.WithCancel(context.Background())
+				done := make(chan struct{})
+				go func() {
+					defer close(done)
+					var conn *gbn.GoBackNConn
+					if side == "server" {
+						conn, _ = gbn.NewServerConn(ctx, sim.sendFunc(1), sim.recvFunc(1))
+					} else {
+						conn, _ = gbn.NewClientConn(ctx, 5, sim.sendFunc(0), sim.recvFunc(0))
+					}
+					if conn != nil {
+						conn.Close()
+					}
+				}()
+				time.Sleep(at)
+				cancel()
+				<-done
+				time.Sleep(10 * time.Second)
+				synctest.Wait()
+			})
+			r.Case(fmt.Sprintf("lonely-hs-cancel:%s:%v", side, at), true, "handshake-cancelled")
+			if leaked != "" || panicked != "" {
+				r.Violate("C12/leak", fmt.Sprintf("a %s handshake with no peer, context cancelled after %v: %s%s", side, at, leaked[:min(len(leaked), 200)], panicked), map[string]interface{}{"side": side, "at": at})
+			}
+		}
+	}
 	// context cancelled during the handshake: nothing may be left behind
 	for _, d := range []time.Duration{0, 300 * time.Millisecond, 1500 * time.Millisecond} {
 		sc := &HsScenario{N: 20, Faults: [2][]Fault{{{Drop: true}, {Drop: true}, {Drop: true}, {Drop: true}}, nil}, ClientDelay: d}
